@@ -1,7 +1,7 @@
 """C02 - Linearization preserves objective values and optima."""
 from . import common as C, core
 
-PROOF_FILES = ["Proof/ArmLemmas.v", "Proof/LinAffine.v", "Proof/AffineSound.v", "Proof/CompileAffine.v", "Proof/Pruning.v", "Proof/CompileAbs.v"]
+PROOF_FILES = ["Proof/ArmLemmas.v", "Proof/LinAffine.v", "Proof/AffineSound.v", "Proof/CompileAffine.v", "Proof/Pruning.v", "Proof/CompileAbs.v", "Proof/CompileVerdicts.v"]
 
 
 def run(ctx):
